@@ -351,6 +351,10 @@ func NewCtx() *Ctx {
 		"(declare-fun bytes_len (Bytes) Int)",
 		"(declare-fun bytes_at (Bytes Int) Int)",
 		"(declare-fun str_bytes (Str) Bytes)",
+		// element index of a slice view: offset + i, kept as an uninterpreted application so that
+		// E-matching sees a stable shape (arithmetic normalisation would destroy the pattern)
+		"(declare-fun sidx (Int Int) Int)",
+		"(assert (forall ((o Int) (i Int)) (! (= (sidx o i) (+ o i)) :pattern ((sidx o i)))))",
 		"(declare-fun bytes_str (Bytes) Str)",
 		// Go truncated division and remainder for signed operands
 		"(define-fun godiv ((a Int) (b Int)) Int (ite (>= a 0) (ite (> b 0) (div a b) (- (div a (- b)))) (ite (> b 0) (- (div (- a) b)) (div (- a) (- b)))))",
@@ -704,4 +708,17 @@ func sexpTokens(s string) []string {
 // modelInt parses an SMT integer value "5" or "(- 5)".
 func modelInt(v string) (*big.Int, bool) {
 	return litVal(Term{strings.TrimSpace(v), SInt})
+}
+
+// ElemIdx is the index of element i in a slice view with offset off.
+func ElemIdx(off, i Term) Term {
+	if off.S == "0" {
+		return i
+	}
+	if x, ok := litVal(off); ok {
+		if y, ok := litVal(i); ok {
+			return BigLit(new(big.Int).Add(x, y))
+		}
+	}
+	return app(SInt, "sidx", off, i)
 }
